@@ -139,10 +139,26 @@ class HashedIterable(Generic[T]):
 
         :return: An iterator over the hashed values.
         """
-        yield from self.values.values()
-        for v in self.iterable:
+        # Several iterations can be active at the same time (e.g., nested loops over queries that share a variable). Each
+        # of them yields every value: the ones that were already pulled from the source iterable (possibly by another
+        # iteration) are replayed by their position, the remaining ones are pulled from the shared source when needed.
+        source = iter(self.iterable)
+        position = 0
+        while True:
+            if position < len(self.values):
+                for v in list(self.values.values())[position:]:
+                    position += 1
+                    yield v
+                continue
+            try:
+                v = next(source)
+            except StopIteration:
+                return
+            is_new = v.id_ not in self.values
             self.values[v.id_] = v
-            yield v
+            if is_new and position == len(self.values) - 1:
+                position += 1
+                yield v
 
     def __or__(self, other) -> HashedIterable[T]:
         return self.union(other)
